@@ -172,6 +172,11 @@ def run(ctx):
     nrand = 60 if quick else 1500
     for i in range(nrand):
         scs.append(G.gen_scenario(ctx.rng, twins=(i % 5 == 4)))
+    if not quick:
+        fam = G.exhaustive_family(3)
+        scs += fam
+        ctx.cov["exhaustive"] = True
+        ctx.cov["exhaustive_family"] = "%d scenarios: fixed prefix + every sequence of 3 operations over a 9-letter alphabet (lib/g8gov.py:exhaustive_family)" % len(fam)
     # F10 probe rides on the first scenario
     probe = dict(scs[0]) if scs else G.gen_scenario(ctx.rng)
     probe["twins"] = [G.cand(5, 0).hex(), G.cand(5, 1).hex(), G.cand(6, 0).hex(), G.cand(6, 1).hex()]
@@ -180,12 +185,23 @@ def run(ctx):
     for sc, o in zip(scs, outs):
         if o.get("fatal"):
             raise RuntimeError("gov engine: scenario failed: %s\n%s" % (o["fatal"][:1500], json.dumps(sc)[:1500]))
+    # a panic inside block execution takes the node down: the history ends there (the panic
+    # itself is reported below), nothing after it is an observation of a running node
+    panics = []
+    for sc, o in zip(scs, outs):
+        for k, d in enumerate(o["dumps"]):
+            if d.get("panic"):
+                panics.append(("C15:panic:" + classify_panic(d["panic"]), "governance transaction panics: " + d["panic"],
+                               {"scenario": dict(sc, ops=sc["ops"][:k]), "step": k - 1}))
+                sc["ops"] = sc["ops"][:k - 1]
+                o["dumps"] = o["dumps"][:k]
+                break
     p0 = outs[0]
     fixed = bool(p0.get("less01")) or bool(p0.get("less10"))   # does Less order the parity twins?
     ctx.cov["votelist_less_orders_parity_twins"] = fixed
 
     # ---------------------------------------------------------------- direct predicates
-    fails, known = [], []
+    fails, known = [], list(panics)
     hist = {}
     nontriv = set()
     for sc, o in zip(scs, outs):
@@ -216,8 +232,6 @@ def run(ctx):
                 known.append(("C15:vpr-rbtree-stale-node",
                               "topVoters red-black tree holds a stale node (key mutated in place before Remove): vpr.equals(loadVpr) false / Keys() panics",
                               {"scenario": sc, "step": k - 1, "treecorrupt": d["mem"].get("treecorrupt")}))
-            if d.get("panic"):
-                known.append(("C15:panic:" + classify_panic(d["panic"]), "governance transaction panics: " + d["panic"], {"scenario": sc, "step": k - 1}))
             nontriv.add((op["op"], d["err"], len([a for a in d["accs"] if a["sp"]]), sum(1 for r in d["res"] if r["l"])))
         rule_predicates(sc, dumps, fails)
     if len(p0.get("twin_orders", [])) > 1:
